@@ -16,6 +16,10 @@ class Fresh:
     self.a, self.k = a, k
 
 
+class _TagF(fdl.Tag):
+  """tag used on factories."""
+
+
 def target(a=None, b=None, *, c=None):
   return dict(a=a, b=b, c=c)
 
@@ -108,6 +112,12 @@ def scenarios():
   S['plain-list-next-to-factory-shared-with-another-argument'] = (
       lambda: (lambda sh: fdl.Partial(target, a=[fdl.ArgFactory(Fresh), sh], b=sh, c={'k': (sh,)}))([1, 2]),
       {'a': 'fresh-first-plain-rest-identical-to-b', 'b': 'same-object'})
+  S['two-equal-factories-in-one-list'] = (
+      lambda: fdl.Partial(target, a=[fdl.ArgFactory(Fresh), fdl.ArgFactory(Fresh)],
+                          b={'x': fdl.ArgFactory(Fresh), 'y': (fdl.ArgFactory(Fresh),)}), {'a': 'fresh-all-distinct', 'b': 'fresh'})
+  S['tagged-factory-inside-containers'] = (
+      lambda: fdl.Partial(target, a=[_TagF.new(fdl.ArgFactory(Fresh))], b={'k': (_TagF.new(fdl.ArgFactory(list)),)}),
+      {'a': 'fresh', 'b': 'fresh'})
   S['factory-direct'] = (lambda: fdl.Partial(target, a=fdl.ArgFactory(Fresh)), {'a': 'fresh'})
   S['factory-in-list'] = (lambda: fdl.Partial(target, a=[fdl.ArgFactory(Fresh), 1]), {'a': 'fresh'})
   S['factory-in-tuple'] = (lambda: fdl.Partial(target, a=(fdl.ArgFactory(Fresh), 1)), {'a': 'fresh'})
@@ -179,6 +189,14 @@ def check_scenario(name):
           break
       if not (outs[0]['b'] is outs[1]['b'] is outs[2]['b']):
         bad('slot b: a plain list was copied between calls')
+    elif mode == 'fresh-all-distinct':
+      for o in outs:
+        got = [id(x) for x in o[slot]]
+        if len(set(got)) != len(got):
+          bad(f'slot {slot}: two distinct ArgFactory nodes of the same callable received one object in a call')
+          break
+      if set(map(id, outs[0][slot])) & set(map(id, outs[1][slot])):
+        bad(f'slot {slot}: ArgFactory results reused between calls')
     elif mode == 'shared':
       if not (vals[0] is vals[1] is vals[2]):
         bad(f'slot {slot}: a nested Config/Partial was rebuilt per call instead of once at build time')
